@@ -10,8 +10,10 @@
 //   LIST = "all" (every value of the type, 8-bit types only) or comma separated decimals
 //   self16 MODE SEED           law check by the driver itself over 16-bit x 16-bit values against __int128 arithmetic
 // Out: {"op","S","T":[types],"pre":[values],"lo":first value,"n":count | "last":[values],"out":[results],"ub":bool}
-//   values are {"neg":bool,"mag":[little-endian decimal digits]}; less: out = 0/1; sums: {"h":has value,"m":digits};
-//   set2: {"m":digits of the stored value,"same":returned == stored}
+//   explicit lists: values are {"neg":bool,"mag":[little-endian decimal digits]}; less: out = 0/1; sums: {"h":has value,"m":digits};
+//                   set2: {"m":digits of the stored value,"same":returned == stored}
+//   "all" (complete 8-bit range lo..lo+n-1 of the last argument): everything is small, so values are plain integers;
+//                   sums: the value or -1 for nothing; set2: the stored value, or -2 if the returned value differs from it
 #include "squid.h"
 #include "SquidMath.h"
 #include "uhelp.h"
@@ -30,8 +32,11 @@ static Wide ParseWide(const std::string &s)
     for (; i < s.size(); ++i) v = v * 10 + (s[i] - '0');
     return neg ? -v : v;
 }
+extern bool Range;
 static std::string Val(Wide v)
 {
+    if (Range)
+        return std::to_string(static_cast<long long>(v));
     const bool neg = v < 0;
     unsigned long long m = static_cast<unsigned long long>(neg ? -v : v); // |INT64_MIN| and UINT64_MAX both fit
     return std::string("{\"neg\":") + U::B(neg) + ",\"mag\":" + U::Digits(m) + "}";
@@ -50,9 +55,11 @@ template <class F> static bool WithType(const std::string &n, F f)
 }
 
 /// the values of the last argument: explicit list or every value of (8-bit) type T
+bool Range = false; ///< the case being evaluated uses the compact integer output
 template <class T> static std::vector<T> LastValues(const std::string &spec, std::string &echo)
 {
     std::vector<T> v;
+    Range = spec == "all";
     if (spec == "all") {
         const long lo = std::numeric_limits<T>::min(), hi = std::numeric_limits<T>::max();
         if (hi - lo > 255) { echo = "\"bad\":1"; return v; }
@@ -76,6 +83,8 @@ template <class T> static std::vector<T> LastValues(const std::string &spec, std
 }
 template <class S> static std::string Opt(const std::optional<S> &r)
 {
+    if (Range)
+        return r.has_value() ? std::to_string(static_cast<long long>(r.value())) : std::string("-1");
     return r.has_value() ? std::string("{\"h\":true,\"m\":") + U::Digits(static_cast<unsigned long long>(r.value())) + "}" : std::string("{\"h\":false,\"m\":[]}");
 }
 static void Emit(const char *op, const std::string &S, const std::string &types, const std::string &pre, const std::string &echo, const std::string &out)
@@ -167,7 +176,10 @@ int main()
                     if (set) {
                         S var = 1;
                         const S ret = SetToNaturalSumOrMax(var, a, b);
-                        out += std::string("{\"m\":") + U::Digits(static_cast<unsigned long long>(var)) + ",\"same\":" + U::B(ret == var && var >= 0) + "}";
+                        if (Range)
+                            out += (ret == var && var >= 0) ? std::to_string(static_cast<long long>(var)) : std::string("-2");
+                        else
+                            out += std::string("{\"m\":") + U::Digits(static_cast<unsigned long long>(var)) + ",\"same\":" + U::B(ret == var && var >= 0) + "}";
                     } else
                         out += Opt<S>(NaturalSum<S>(a, b));
                 }
